@@ -186,6 +186,7 @@ def run_check(family, pid: str, tier: str, seed: int) -> int:
     new_viol.sort(key=lambda v: len(json.dumps(v.get('scenario'), default=str)))
     for i, v in enumerate(new_viol[:3]):
         h = hashlib.sha1(json.dumps(v.get('scenario'), sort_keys=True, default=str).encode()).hexdigest()[:10]
+        v = dict(v, property=pid, seed=ctx.seed, tier=ctx.tier)
         path = write_json(os.path.join(REPLAY, f'{pid}-found-{h}.json'), v)
         lines.append(f'VIOLATION property={pid} replay={path}')
         rc = 1
